@@ -31,7 +31,15 @@ static inline void* sim_alloc(std::size_t n)
     void* p = std::malloc(n ? n : 1);
     if (!p)
         throw std::bad_alloc();
+    if (sim::atrack().enabled && sim::fctl().window)
+        sim::atrack().add(p);
     return p;
+}
+static inline void sim_free(void* p)
+{
+    if (p && sim::atrack().enabled && sim::atrack().n)
+        sim::atrack().remove(p);
+    std::free(p);
 }
 void* operator new(std::size_t n)
 {
@@ -77,43 +85,43 @@ void* operator new[](std::size_t n, std::align_val_t al)
 }
 void operator delete(void* p) noexcept
 {
-    std::free(p);
+    sim_free(p);
 }
 void operator delete[](void* p) noexcept
 {
-    std::free(p);
+    sim_free(p);
 }
 void operator delete(void* p, std::size_t) noexcept
 {
-    std::free(p);
+    sim_free(p);
 }
 void operator delete[](void* p, std::size_t) noexcept
 {
-    std::free(p);
+    sim_free(p);
 }
 void operator delete(void* p, const std::nothrow_t&) noexcept
 {
-    std::free(p);
+    sim_free(p);
 }
 void operator delete[](void* p, const std::nothrow_t&) noexcept
 {
-    std::free(p);
+    sim_free(p);
 }
 void operator delete(void* p, std::align_val_t) noexcept
 {
-    std::free(p);
+    sim_free(p);
 }
 void operator delete[](void* p, std::align_val_t) noexcept
 {
-    std::free(p);
+    sim_free(p);
 }
 void operator delete(void* p, std::size_t, std::align_val_t) noexcept
 {
-    std::free(p);
+    sim_free(p);
 }
 void operator delete[](void* p, std::size_t, std::align_val_t) noexcept
 {
-    std::free(p);
+    sim_free(p);
 }
 
 // Sanitizer defaults: classify hits by exit code, leaks are decided per run by instance
@@ -575,6 +583,8 @@ int sim_main(int argc, char** argv, Engine& e)
         {
             std::string d = read_file(f);
             size_t n = d.size() / 8;
+            if (!n)
+                continue;
             size_t old = all.size();
             all.resize(old + n);
             memcpy(all.data() + old, d.data(), n * 8);
